@@ -185,27 +185,32 @@ def _alarm(signum, frame):
     raise Timeout()
 
 
+TIME_FACTOR = float(os.environ.get('VERIF_TIME_FACTOR', '1') or 1)
+
+
 class time_limit:
-    """with time_limit(s): ...  raises Timeout in the body after s seconds of wall clock.  When a limit is already running (nested
-    use) the outer one stays in charge."""
+    """with time_limit(s): ...  raises Timeout in the body after s seconds of CPU time of this process (ITIMER_PROF: a loop that never
+    ends burns CPU and is caught; a machine that is merely busy, or slowed down by other checks running beside this one, does not trip
+    it -- a wall-clock limit did, under load, on the largest well-formed SCTP packets).  When a limit is already running (nested use)
+    the outer one stays in charge.  The wall-clock watchdog of main.py covers anything that would block without using CPU."""
 
     def __init__(self, seconds):
-        self.seconds = seconds
+        self.seconds = seconds * TIME_FACTOR
         self.armed = False
 
     def __enter__(self):
         import signal
-        if signal.getitimer(signal.ITIMER_REAL)[0] == 0:
-            self.old = signal.signal(signal.SIGALRM, _alarm)
-            signal.setitimer(signal.ITIMER_REAL, self.seconds)
+        if signal.getitimer(signal.ITIMER_PROF)[0] == 0:
+            self.old = signal.signal(signal.SIGPROF, _alarm)
+            signal.setitimer(signal.ITIMER_PROF, self.seconds)
             self.armed = True
         return self
 
     def __exit__(self, *exc):
         import signal
         if self.armed:
-            signal.setitimer(signal.ITIMER_REAL, 0)
-            signal.signal(signal.SIGALRM, self.old)
+            signal.setitimer(signal.ITIMER_PROF, 0)
+            signal.signal(signal.SIGPROF, self.old)
         return False
 
 
